@@ -28,6 +28,7 @@ type suite[T comparable] struct {
 	evals    *int64
 	inputs   *int64
 	maxLen   int
+	long     bool // also run the long lists (int suite)
 }
 
 // input builds the list for symbols with spare capacity (2 sentinel slots beyond len).
@@ -129,8 +130,25 @@ func contiguous[T comparable](sub, l []T) bool {
 	return false
 }
 
+// longSymbolLists: inputs beyond any small-size shortcut in a helper (17 ... 130 elements over the same
+// three symbols, two repetition patterns).
+func longSymbolLists() [][]int {
+	var out [][]int
+	for _, n := range []int{17, 33, 70, 130} {
+		a, b := make([]int, n), make([]int, n)
+		for i := 0; i < n; i++ {
+			a[i], b[i] = i%3, (i*i+i/7)%3
+		}
+		out = append(out, a, b)
+	}
+	return out
+}
+
 func (s *suite[T]) run() {
 	lists := allLists(s.maxLen, 3)
+	if s.long {
+		lists = append(lists, longSymbolLists()...)
+	}
 	type in struct {
 		sy  []int
 		nil bool
@@ -450,6 +468,11 @@ func (s *suite[T]) run() {
 	for _, l := range allLists(pairMax, 3) {
 		small = append(small, in{l, false})
 	}
+	if s.long {
+		for _, l := range longSymbolLists()[:4] {
+			small = append(small, in{l, false})
+		}
+	}
 	for _, a := range small {
 		for _, b := range small {
 			la, lb := s.input(a.sy, a.nil), s.input(b.sy, b.nil)
@@ -688,7 +711,7 @@ func main() {
 	if r.Tier == "thorough" {
 		maxLen = 5
 	}
-	(&suite[int]{r: r, tname: "int", sym: func(i int) int { return i }, sentinel: 99, evals: &evals, inputs: &inputs, maxLen: maxLen}).run()
+	(&suite[int]{r: r, tname: "int", sym: func(i int) int { return i }, sentinel: 99, evals: &evals, inputs: &inputs, maxLen: maxLen, long: true}).run()
 	(&suite[string]{r: r, tname: "string", sym: func(i int) string { return []string{"a", "b", ""}[i] }, sentinel: "SENTINEL", evals: &evals, inputs: &inputs, maxLen: maxLen - 1}).run()
 	(&suite[rec]{r: r, tname: "struct", sym: func(i int) rec { return rec{i, strings.Repeat("x", i)} }, sentinel: rec{99, "S"}, evals: &evals, inputs: &inputs, maxLen: maxLen - 1}).run()
 	mapsAndNumbers(r, &evals, &inputs)
